@@ -48,6 +48,8 @@ impl Excitation {
     /// lpf.len() == nlpf
     #[allow(clippy::needless_range_loop)]
     fn voiced_frame(&mut self, noise: f64, pulse: f64, lpf: &[f64]) {
+        #[cfg(feature = "verif-hooks")]
+        crate::verif::point("excitation.voiced");
         let center = (self.ring_buffer.len() - 1) / 2;
         if noise != 0.0 {
             for i in 0..self.ring_buffer.len() {
@@ -67,6 +69,8 @@ impl Excitation {
 
     /// lpf.len() == nlpf
     pub fn get(&mut self, lpf: &[f64]) -> f64 {
+        #[cfg(feature = "verif-hooks")]
+        crate::verif::point("excitation.get");
         if self.ring_buffer.len() > 0 {
             let noise = self.white_noise();
             if self.pitch_of_curr_point == 0.0 {
@@ -211,6 +215,8 @@ impl Random {
     }
 
     fn rnd(&mut self) -> f64 {
+        #[cfg(feature = "verif-hooks")]
+        crate::verif::point("random.rnd");
         self.next = self.next.wrapping_mul(1103515245).wrapping_add(12345);
         let r = self.next.wrapping_div(65536).wrapping_rem(32768);
         r as f64 / 32767.0
